@@ -23,6 +23,8 @@ const (
 	AString
 	AInt
 	ATag // symbolic marker, e.g. "PARTS" for the slice of URL path segments
+	ANil // the nil constant (pointer, slice, map, interface, func, chan)
+	aTop // internal: value of a phi all of whose evaluated edges were cyclic (optimistic "no information yet")
 )
 
 type AVal struct {
@@ -32,7 +34,7 @@ type AVal struct {
 	I int64
 }
 
-func (a AVal) known() bool { return a.K != AUnknown }
+func (a AVal) known() bool { return a.K != AUnknown && a.K != aTop }
 func (a AVal) String() string {
 	switch a.K {
 	case ABool:
@@ -43,6 +45,8 @@ func (a AVal) String() string {
 		return fmt.Sprintf("%d", a.I)
 	case ATag:
 		return "#" + a.S
+	case ANil:
+		return "nil"
 	}
 	return "?"
 }
@@ -72,6 +76,7 @@ type SCCP struct {
 	edge     map[[2]int]bool // (block index, succ index)
 	vals     map[ssa.Value]AVal
 	inprog   map[ssa.Value]bool
+	skipped  int // number of optimistic skips of in-progress (cyclic) values so far
 }
 
 func runSCCP(f *ssa.Function, env *AEnv) *SCCP {
@@ -140,17 +145,34 @@ func (s *SCCP) Eval(v ssa.Value) AVal {
 		return a
 	}
 	if s.inprog[v] {
-		return unknown // cyclic phi: pessimistic
+		// cyclic phi: optimistic (classic SCCP) — the edge contributes nothing yet
+		s.skipped++
+		return AVal{K: aTop}
 	}
 	s.inprog[v] = true
+	before := s.skipped
 	a := s.eval1(v)
 	delete(s.inprog, v)
-	s.vals[v] = a
+	if a.K == aTop {
+		if len(s.inprog) == 0 {
+			a = unknown
+		} else {
+			return a
+		}
+	}
+	// a value computed while a cycle was cut beneath it is final only at the outermost level
+	if s.skipped == before || len(s.inprog) == 0 {
+		s.vals[v] = a
+	}
 	return a
 }
 
 func constVal(c *ssa.Const) AVal {
 	if c.Value == nil {
+		switch c.Type().Underlying().(type) {
+		case *types.Pointer, *types.Slice, *types.Map, *types.Interface, *types.Signature, *types.Chan:
+			return AVal{K: ANil}
+		}
 		return unknown
 	}
 	switch c.Value.Kind() {
@@ -189,7 +211,7 @@ func (s *SCCP) eval1(v ssa.Value) AVal {
 		}
 	case *ssa.Phi:
 		var res AVal
-		first := true
+		first, sawTop := true, false
 		for i, e := range x.Edges {
 			pred := x.Block().Preds[i]
 			// which succ index of pred leads to this block?
@@ -203,6 +225,10 @@ func (s *SCCP) eval1(v ssa.Value) AVal {
 				continue
 			}
 			ev := s.Eval(e)
+			if ev.K == aTop {
+				sawTop = true
+				continue
+			}
 			if !ev.known() {
 				return unknown
 			}
@@ -213,6 +239,9 @@ func (s *SCCP) eval1(v ssa.Value) AVal {
 			}
 		}
 		if first {
+			if sawTop {
+				return AVal{K: aTop}
+			}
 			return unknown
 		}
 		return res
@@ -258,6 +287,10 @@ func (s *SCCP) eval1(v ssa.Value) AVal {
 		}
 	case *ssa.ChangeType:
 		return s.Eval(x.X)
+	case *ssa.ChangeInterface:
+		if a := s.Eval(x.X); a.K == ANil {
+			return a
+		}
 	case *ssa.Convert:
 		a := s.Eval(x.X)
 		if a.K == AString || a.K == ATag {
